@@ -58,6 +58,31 @@ class Stats:
 _FV_CACHE: dict = {}
 _QCACHE: dict = {}
 
+# cross-solver sampling: every _XRATE-th decided sliced query is written as SMT-LIB2 to
+# _XDIR together with z3's verdict; runner.cross_check re-decides the sample with the
+# other installed solvers (z3 4.8.12 binary, cvc5 binary)
+_XDIR = os.environ.get("SYMTDF_XDUMP_DIR", "")
+_XRATE = int(os.environ.get("SYMTDF_XDUMP_RATE", "0") or 0)
+_XCAP = int(os.environ.get("SYMTDF_XDUMP_CAP", "40") or 40)
+_xcount = [0, 0]
+
+
+def _xdump(rel, assumptions, verdict: str) -> None:
+    _xcount[0] += 1
+    if _xcount[0] % _XRATE or _xcount[1] >= _XCAP:
+        return
+    _xcount[1] += 1
+    try:
+        sv = z3.Solver()
+        if rel:
+            sv.add(*rel)
+        sv.add(*assumptions)
+        text = sv.to_smt2()
+        with open(os.path.join(_XDIR, f"q{os.getpid()}_{_xcount[1]:04d}.smt2"), "w") as fh:
+            fh.write(f"; expected: {verdict}\n" + text)
+    except Exception:  # noqa: BLE001 - sampling must never disturb the run
+        pass
+
 
 def free_syms(e) -> frozenset:
     """Names of the uninterpreted constants / functions occurring in a term.  Memoised for
@@ -256,6 +281,8 @@ class Ctx:
                 if len(_QCACHE) > 300000:
                     _QCACHE.clear()
                 _QCACHE[key] = (str(r), rel, assumptions)  # keeps the terms (and their ids) alive
+                if _XRATE:
+                    _xdump(rel, assumptions, str(r))
         dt = time.perf_counter() - t0
         self.stats.solver_s += dt
         self.stats.queries += 1
@@ -880,6 +907,51 @@ def bv_from_field(bits, signed: bool):
     return mkbv(z3.SignExt(BVW - k, bits) if signed else z3.ZeroExt(BVW - k, bits))
 
 
+class NpInt(int):
+    """A concrete integer read out of a numpy array: behaves as an int, but - like a
+    numpy integer scalar - is not an instance of the builtin `int` for the code under test."""
+    np_code = "i8"
+
+
+class NpSInt(SInt):
+    np_code = "i8"
+
+
+class NpSBVInt(SBVInt):
+    np_code = "i8"
+
+
+def as_np_scalar(x, code: str):
+    """Mark an integer leaf handed out by the numpy model as a numpy scalar.  Only values
+    read directly from an array carry the mark; results of arithmetic on them are plain."""
+    if isinstance(x, bool) or isinstance(x, (NpInt, NpSInt, NpSBVInt)):
+        return x
+    if isinstance(x, int):
+        v = NpInt(x)
+    elif isinstance(x, SBVInt):
+        v = NpSBVInt(x.e)
+    elif isinstance(x, SInt):
+        v = NpSInt(x.e)
+    else:
+        return x
+    v.np_code = code
+    return v
+
+
+def is_np_scalar(x) -> bool:
+    return isinstance(x, (NpInt, NpSInt, NpSBVInt))
+
+
+def strip_np(x):
+    if isinstance(x, NpInt):
+        return int(x)
+    if isinstance(x, NpSBVInt):
+        return SBVInt(x.e)
+    if isinstance(x, NpSInt):
+        return SInt(x.e)
+    return x
+
+
 def is_symint(x) -> bool:
     return isinstance(x, SymIntBase)
 
@@ -1048,8 +1120,13 @@ def run_path(fn: Callable[[Any], None], make_inputs: Callable[[Ctx], Any], prefi
         if r == "skip":
             pass
         elif r == "sat":
-            res.witness = inputs.model_inputs(m)
-            res.observations = inputs.eval_observations(m)
+            try:
+                res.witness = inputs.model_inputs(m)
+                res.observations = inputs.eval_observations(m)
+            except Exception as e:  # noqa: BLE001 - e.g. a payload too large to materialise
+                # the path is decided; only its concrete witness replay is skipped
+                res.witness = None
+                res.detail = f"witness not materialised: {e}"
         elif r == "unknown":
             res.status = "inconclusive"
             res.detail = "witness query unknown"
